@@ -1,0 +1,8 @@
+//go:build verif
+
+package multiterm
+
+// VerifSetTermSize overrides the detected terminal size (verification harness only)
+func VerifSetTermSize(rows, cols int) {
+	computedRows, computedCols = rows, cols
+}
